@@ -184,16 +184,36 @@ def _vote_stmt(s, t, la, lb, votes):
         _vote_expr(x, y, la, lb, votes)
 
 
-def _align(A, B, la, lb, votes):
+def _pairs(A, B, la, lb):
+    """[(statement of A, statement of B, headers equal?)]: equal shapes first (longest common subsequence); inside the stretches that differ, compound
+    statements of the same kind are paired in order of appearance so that their blocks can still be compared (a loop whose bound is now a local, an `if`
+    whose test was rewritten)."""
     sa = [shape_stmt(s, la) for s in A]
     sb = [shape_stmt(s, lb) for s in B]
-    sm = SequenceMatcher(None, sa, sb, autojunk=False)
-    for i, j, n in sm.get_matching_blocks():
-        for k in range(n):
-            s, t = A[i + k], B[j + k]
+    out = []
+    for tag, i1, i2, j1, j2 in SequenceMatcher(None, sa, sb, autojunk=False).get_opcodes():
+        if tag == 'equal':
+            for k in range(i2 - i1):
+                out.append((A[i1 + k], B[j1 + k], True))
+        elif tag == 'replace':
+            ca = [s for s in A[i1:i2] if sub_blocks(s)]
+            cb = [s for s in B[j1:j2] if sub_blocks(s)]
+            for kind in ('for', 'foreach', 'while', 'loop', 'if', 'with', 'try', 'omp'):
+                xa = [s for s in ca if s.k == kind]
+                xb = [s for s in cb if s.k == kind]
+                if xa and len(xa) == len(xb):
+                    out.extend((s, t, False) for s, t in zip(xa, xb))
+    return out
+
+
+def _align(A, B, la, lb, votes):
+    for s, t, same in _pairs(A, B, la, lb):
+        if same:
             _vote_stmt(s, t, la, lb, votes)
-            for ba, bb in zip(sub_blocks(s), sub_blocks(t)):
-                _align(ba, bb, la, lb, votes)
+        elif s.k == 'for' and s.var in la and t.var in lb:
+            votes[(s.var, t.var)] = votes.get((s.var, t.var), 0) + 1
+        for ba, bb in zip(sub_blocks(s), sub_blocks(t)):
+            _align(ba, bb, la, lb, votes)
 
 
 def correspondence(cur_body, base_body, cur_params, base_params):
@@ -219,9 +239,24 @@ def correspondence(cur_body, base_body, cur_params, base_params):
     return mapping, la
 
 
+_PREP = {}
+
+
+def _base(key, qual):
+    """(params, body) of the baseline function, in the same pre-normal form as the current bodies (conditional assignments as ifs)"""
+    k = (key, qual)
+    if k not in _PREP:
+        b = baseline_ir().get(key, {}).get(qual)
+        if b is not None:
+            from .canon import split_cond_assigns
+            b = (b[0], split_cond_assigns(b[1]))
+        _PREP[k] = b
+    return _PREP[k]
+
+
 def recover(key, qual, params, body):
     """body of the current function with its locals renamed to the baseline's names where the correspondence is clear"""
-    base = baseline_ir().get(key, {}).get(qual)
+    base = _base(key, qual)
     if base is None or not body:
         return body
     bparams, bbody = base
@@ -229,6 +264,7 @@ def recover(key, qual, params, body):
         mapping, la = correspondence(body, bbody, set(params), set(bparams))
     except RecursionError:
         return body
+    LAST_RENAMING.clear()
     ren = {a: b for a, b in mapping.items() if a != b}
     if not ren:
         return body
@@ -244,7 +280,15 @@ def recover(key, qual, params, body):
             t.d['name'] = ren[t.name]
         if t.k == 'for' and t.var in ren:
             t.d['var'] = ren[t.var]
+        if t.k == 'omp' and isinstance(t.d.get('clauses'), dict):
+            # the variable lists of OpenMP clauses name the same locals
+            t.d['clauses'] = {k_: [[ren.get(x, x) for x in lst] if isinstance(lst, (list, tuple)) else lst for lst in v_] for k_, v_ in t.d['clauses'].items()}
+    LAST_RENAMING.clear()
+    LAST_RENAMING.update(ren)
     return out
+
+
+LAST_RENAMING = {}
 
 
 # ------------------------------------------------------------------------------------------------------------------------------------
@@ -355,24 +399,116 @@ def _disturbed(stmts, v, fv, arrs):
     return scan(stmts, False)[1]
 
 
-def absorb_new_locals(key, qual, params, body, max_rounds=12):
-    base = baseline_ir().get(key, {}).get(qual)
+def _score(A, B, la, lb):
+    """number of statements of A that align with statements of B (recursively)"""
+    n = 0
+    for s, t, same in _pairs(A, B, la, lb):
+        n += 1 if same else 0
+        for ba, bb in zip(sub_blocks(s), sub_blocks(t)):
+            n += _score(ba, bb, la, lb)
+    return n
+
+
+def _holds_everywhere(body, v, R):
+    """Forward analysis of the fact `v == R` (True / False) through the structured statements: a definition `v = R` establishes it, a write to an
+    operand of R destroys it, branches meet with `and`, loops are iterated to a fixpoint, break / continue carry their state to the loop exit / back edge.
+    -> True iff the fact holds at every read of v."""
+    fv, arrs = _free_vars(R), _array_bases(R)
+    bad = [False]
+
+    def writes_operand(h):
+        av, ab = _writes([h])
+        return bool((av & fv) or (ab & arrs) or (ab & fv))
+
+    def flow(stmts, st, brk, cont):
+        """st: fact on entry; brk / cont: lists collecting the fact at break / continue; returns the fact on fall-through (None = no fall-through)"""
+        for t in stmts:
+            if st is None:
+                return None
+            h = _hdr(t)
+            is_def = (t.k == 'assign' and t.target == ('var', v) and t.d.get('aug') is None) or (t.k == 'decl' and t.name == v and t.init is not None)
+            if _uses([h], v) and not st:
+                bad[0] = True
+            if t.k == 'if':
+                a = flow(t.then, st, brk, cont)
+                b = flow(t.els, st, brk, cont)
+                st = b if a is None else (a if b is None else (a and b))
+            elif t.k in ('for', 'foreach', 'while', 'loop'):
+                hw = writes_operand(h) or (t.k == 'for' and t.var in fv)
+                entry = st and not hw
+                exits = [entry if t.k != 'loop' else st]       # zero iterations
+                cur = entry
+                for _round in range(3):
+                    b2, c2 = [], []
+                    out = flow(t.body, cur, b2, c2)
+                    back = [x for x in ([out] + c2) if x is not None]
+                    nxt = entry and all(back) and not hw if back else entry
+                    exits = [entry] + b2 + back
+                    if nxt == cur:
+                        break
+                    cur = nxt
+                    if _uses([h], v) and not cur:
+                        bad[0] = True
+                st = all(x for x in exits if x is not None)
+            elif t.k in ('with', 'try', 'omp'):
+                for blk in sub_blocks(t):
+                    r = flow(blk, st, brk, cont)
+                    st = st if r is None else (st and r if t.k == 'try' else r)
+            elif t.k == 'break':
+                brk.append(st)
+                return None
+            elif t.k == 'continue':
+                cont.append(st)
+                return None
+            elif t.k in ('return', 'raise'):
+                return None
+            else:
+                if is_def:
+                    val = t.value if t.k == 'assign' else t.init
+                    if val != R:
+                        bad[0] = True
+                    st = True
+                elif (t.k == 'decl' and t.name == v):
+                    st = False
+                elif writes_operand(t):
+                    st = False
+        return st
+    flow(body, False, [], [])
+    return not bad[0]
+
+
+def absorb_new_locals(key, qual, params, body, max_rounds=16):
+    """Greedy: among the new locals that can be absorbed, absorb the one after which the function aligns best with its baseline (and not worse than
+    before), recover names again, repeat.  (`envelope = s2[a:b]; upper = max(envelope)`: absorbing `envelope` makes `upper = max(s2[a:b])` align with the
+    baseline's `ui = max(s2[a:b])`, so `upper` is recognised as `ui` instead of being absorbed itself.)"""
+    base = _base(key, qual)
     if base is None or not body:
         return body
     bparams, bbody = base
-    known = local_names(bbody, set(bparams)) | set(bparams)
+    lb = local_names(bbody, set(bparams))
+    known = lb | set(bparams)
+    pset = set(params)
     for _ in range(max_rounds):
-        new = {v for v in local_names(body, set(params)) if v not in known and '@' not in v}
+        new = {v for v in local_names(body, pset) if v not in known and '@' not in v}
         if not new:
             break
-        done = _absorb_one(body, new, set(params))
-        if done is None:
+        cur = _score(body, bbody, local_names(body, pset), lb)
+        best = None
+        for v in sorted(new):
+            cand = _absorb_one(body, new, pset, only=v)
+            if cand is None:
+                continue
+            cand = recover(key, qual, params, cand)
+            sc = _score(cand, bbody, local_names(cand, pset), lb)
+            if best is None or sc > best[0]:
+                best = (sc, cand)
+        if best is None or best[0] < cur:
             break
-        body = done
+        body = best[1]
     return body
 
 
-def _absorb_one(body, new, params):
+def _absorb_one(body, new, params, only=None):
     """Find one new local v all of whose uses are dominated by a definition `v = R` in the same block (one definition per branch is fine) with the
     operands of R undisturbed up to the last use; substitute the definitions and drop them.  None when there is no such local."""
     # all definition sites per variable: (block, index, R) for plain top-level-of-block assignments; any other kind of binding disqualifies
@@ -408,6 +544,8 @@ def _absorb_one(body, new, params):
                 scan(blk)
     scan(body)
     for v in sorted(new):
+        if only is not None and v != only:
+            continue
         if v in bad or v not in sites:
             continue
         total = _uses(body, v)
@@ -434,6 +572,26 @@ def _absorb_one(body, new, params):
                 ok = False
                 break
         if not ok or covered != total:
+            # second criterion: every definition assigns the same expression R and `v == R` holds at every read of v (forward validity analysis
+            # over branches, loops, breaks): then every read of v can be replaced by R and the definitions dropped
+            rs = {repr(R) for _B, _i, R in sites[v]}
+            R0 = sites[v][0][2]
+            if len(rs) == 1 and not any(x == ('var', v) for x in walk_expr(R0)) and not any(x[0] in ('lambda', 'comp', 'call') for x in walk_expr(R0)) \
+                    and _holds_everywhere(body, v, R0):
+                sub = {v: R0}
+
+                def strip(B):
+                    out = []
+                    for t in B:
+                        if (t.k == 'assign' and t.target == ('var', v) and t.d.get('aug') is None) or (t.k == 'decl' and t.name == v):
+                            continue
+                        d = dict(t.d)
+                        for attr in ('then', 'els', 'body', 'orelse', 'final'):
+                            if isinstance(d.get(attr), list):
+                                d[attr] = strip(d[attr])
+                        out.append(map_stmt(S(t.k, t.line, **d), lambda e: subst_vars(e, sub)))
+                    return out
+                return strip(body)
             continue
         # apply: in every defining block, substitute in the rest and drop the definition
         def rewrite(B):
